@@ -861,9 +861,6 @@ def run_rx(ctx, h, model, cases, nproc=16):
             else:
                 mres[(i, k)] = {kk: raw_rows(vv) for kk, vv in (x.split("=", 1) for x in o.split(";"))}
 
-    # C20_EXPECT_PATCHED=1: the tree under test carries fixes/C20-{split-empty-match-at-previous-end,sticky-fast-paths-use-generic-
-    # protocol,findall-empty-match-adjacent-to-previous}.diff; expect the mechanism those patches produce (used to validate them)
-    patched = os.environ.get("C20_EXPECT_PATCHED") == "1"
     st = ctx.stats.setdefault("rx", {"cases": 0, "lines": 0, "engines": {}, "syntax_errors": 0, "timeouts": 0, "flags": {},
                                      "features": {}, "subject_kinds": {}, "modes": {}, "ops_compared": 0, "split_pair_starts": 0,
                                      "clean_cases": 0, "paths": {}, "rawlists_checked": 0, "fast_ne_generic": {}, "engine_rows_compared": 0})
@@ -992,8 +989,6 @@ def run_rx(ctx, h, model, cases, nproc=16):
                     expected = [list(rowsr[0][0])] if rowsr and rowsr[0] else []
                 obs = rawobs.get(tag)
                 ideal[tag] = itm["ideal"]
-                if patched and path == "go" and lim != 1 and obs == it2["coded"]:
-                    expected = obs            # pattern can match the empty string: the patched code sweeps with regexp2
                 if expected is not None and obs != expected:
                     report("rawlist:%s:unexplained" % path,
                            "findAllSubmatchIndex(start=%d, limit=%d, sticky=%s) of /%s/%s on %s: observed %s, %s-path model %s" % (
@@ -1001,14 +996,10 @@ def run_rx(ctx, h, model, cases, nproc=16):
                            {"request": [tag, st0, lim, stk], "observed": obs, "expected": expected, "tbl2": d["tbl2"], "tblr": d["tblr"]})
                 # why does the raw list differ from what the generic protocol would collect?
                 if obs != itm["ideal"]:
-                    if path == "r2" and stk and obs == it2["coded"] and it2["ideal"] == itm["ideal"]:
-                        cause_raw[tag] = "sticky-after-empty"
+                    if stk:
+                        cause_raw[tag] = "unexplained"       # sticky sweeps are not used by any built-in any more
                     elif path == "go" and itr and obs == itr["go"] and itr["ideal"] == itm["ideal"] and not stk:
                         cause_raw[tag] = "go-adjacent-empty"
-                    elif path == "go" and itr and obs == itr["go"] and itr["ideal"] == itm["ideal"] and stk:
-                        cause_raw[tag] = "sticky-after-empty" if itr["coded"] == obs else "go-adjacent-empty"
-                    elif path == "single" and stk and obs == expected:
-                        cause_raw[tag] = "sticky-unfiltered-limit1"
                     elif hasre2 and itr and itr["ideal"] != it2["ideal"]:
                         cause_raw[tag] = "engine-mix"
                     elif path == "go" and itr and obs == itr["go"]:
@@ -1024,11 +1015,9 @@ def run_rx(ctx, h, model, cases, nproc=16):
                     if gen is None:
                         continue
                     use_fast = (mname == "fast" and op[0] in FVG_OPS) or (mname in ("ginst", "gisym") and op[0] == "P")
-                    if patched and use_fast and ((op[0] == "M" and "g" in fl and "y" in fl) or (op[0] in "FR" and "y" in fl)):
-                        use_fast = False
+                    if use_fast and ((op[0] == "M" and "g" in fl and "y" in fl) or (op[0] in "FR" and "y" in fl)):
+                        use_fast = False      # sticky regexps take the generic protocol in match / replace (/repo 15617dc)
                     exp = (fastm if use_fast else gen).get(op)
-                    if patched and use_fast and op[0] == "P":
-                        exp = fastm.get("Pfix" if op == "P" else "PLfix" + op[2:])
                     if exp != v:
                         report("glue:%s:%s" % (op[0], "fast" if use_fast else "generic"),
                                "%s of /%s/%s on %s in mode %s: mechanism model (%s path) %s, implementation %s" % (
@@ -1048,18 +1037,13 @@ def run_rx(ctx, h, model, cases, nproc=16):
                     if op[0] not in FVG_OPS:
                         continue
                     fv = fastm.get(op)
-                    if patched:
-                        if (op[0] == "M" and "g" in fl and "y" in fl) or (op[0] in "FR" and "y" in fl):
-                            fv = gv
-                        elif op[0] == "P":
-                            fv = fastm.get("Pfix" if op == "P" else "PLfix" + op[2:])
+                    if (op[0] == "M" and "g" in fl and "y" in fl) or (op[0] in "FR" and "y" in fl):
+                        fv = gv               # no fast path of its own any more
                     if fv == gv:
                         continue
                     tag = "m" if op[0] == "M" else "s" if op[0] == "P" else "r" + op[1:]
                     cause = cause_raw.get(tag)
-                    if cause is None and op[0] == "P":
-                        cause = "split-empty-at-previous-end" if fastm.get("Pfix" if op == "P" else "PLfix" + op[2:]) == gv else "unexplained"
-                    elif cause is None:
+                    if cause is None:
                         cause = "unexplained"
                     if cause == "unexplained" and op[0] in "FR" and mres.get((li, "plain"), {}).get(op) == fv:
                         cause = "capture-lowerbound"     # exec hides captures by its lowerBound rule, the fast path does not
